@@ -318,13 +318,15 @@ func keysOf(m map[string]string) []string {
 
 func computeFacts(e *expv1.Experiment, gen manifest.Generator) tplFacts {
 	var f tplFacts
-	t := e.Spec.TrialTemplate
+	// the facts are read from a copy taken before the generator runs, and the generator is given a copy of its own:
+	// the caller's experiment is left as it was
+	t := e.DeepCopy().Spec.TrialTemplate
 	if t == nil || (t.TrialSpec == nil && t.ConfigMap == nil) {
 		return f
 	}
 	var tpl string
 	var err error
-	if p := kit.Recover(func() { tpl, err = gen.GetTrialTemplate(e) }); p != "" || err != nil {
+	if p := kit.Recover(func() { tpl, err = gen.GetTrialTemplate(e.DeepCopy()) }); p != "" || err != nil {
 		return f
 	}
 	// generator side: metadata of the template
